@@ -772,3 +772,149 @@ def deref(expr, frame, depth=0):
         expr, frame = frame.bindings[expr.id]
         depth += 1
     return expr, frame
+
+
+def private_helpers(e, cls_qname, primitives=()):
+    """Private methods of the class that are only ever *called* as
+    `self.m(...)` from other methods of the class (never passed around,
+    spawned, or named in `primitives`): when a rule inlines same-self calls
+    they are seen in the context of each caller, so a site inside one is
+    judged there and not on the helper taken alone."""
+    import ast as _ast
+    from ..model import walk_own
+    c = merged_class(e, cls_qname)
+    called, other = {}, set()
+    for mname, m in c.methods.items():
+        funcs = set()
+        for x in walk_own(m.node):
+            if isinstance(x, _ast.Call) and \
+                    isinstance(x.func, _ast.Attribute) and \
+                    isinstance(x.func.value, _ast.Name) and \
+                    x.func.value.id == 'self' and x.func.attr in c.methods:
+                funcs.add(id(x.func))
+                if x.func.attr != mname:
+                    called.setdefault(x.func.attr, set()).add(mname)
+        for x in walk_own(m.node):
+            if isinstance(x, _ast.Attribute) and id(x) not in funcs and \
+                    isinstance(x.value, _ast.Name) and \
+                    x.value.id == 'self' and x.attr in c.methods:
+                other.add(x.attr)
+    # overridden / overriding methods are entry points of their own
+    out = set()
+    for mname in c.methods:
+        if mname.startswith('_') and not mname.startswith('__') and \
+                mname in called and mname not in other and \
+                mname not in primitives:
+            out.add(mname)
+    return out
+
+
+# the disposition / dispatch primitives of slimta.queue.Queue: the events of
+# the queue rules, never inlined into the function that calls them
+QUEUE_PRIMITIVES = ['_attempt', '_retry_later', '_handle_partial_relay',
+                    '_remove', '_perm_fail', '_pool_spawn', '_pool_run',
+                    '_pool_imap', '_add_queued', '_bounce', '_split_by_reply',
+                    '_dequeue', '_check_ready', 'enqueue', 'flush', 'kill',
+                    '_run', '_load_all', '_wait_store', '_wait_ready',
+                    '_run_policies']
+
+
+def queue_inline(e, also=()):
+    """inlining policy for Queue methods: private helpers a method was split
+    into are part of it; the primitives stay call events"""
+    return e.inline_same_self(deny=list(QUEUE_PRIMITIVES) + list(also))
+
+
+def origin(g, expr, frame, depth=0, follow_locals=True):
+    """(expression, frame) where a value comes from: a parameter of an
+    inlined helper stands for the caller's argument, a local assigned once
+    for what it was assigned, a call of an inlined helper with one return
+    for what that returns.  Stops at the first thing it cannot follow."""
+    import ast as _ast
+    from ..model import walk_own
+    while depth < 8:
+        depth += 1
+        if isinstance(expr, _ast.Name):
+            fn = frame.ctx.func
+            stores = [x for x in walk_own(fn.node)
+                      if isinstance(x, _ast.Name) and x.id == expr.id and
+                      isinstance(x.ctx, (_ast.Store, _ast.Del))]
+            if expr.id in fn.params and not stores and \
+                    expr.id in getattr(frame, 'arg_exprs', {}):
+                expr, frame = frame.arg_exprs[expr.id]
+                continue
+            if len(stores) == 1 and expr.id not in fn.params and \
+                    follow_locals:
+                a = [x for x in walk_own(fn.node)
+                     if isinstance(x, _ast.Assign) and len(x.targets) == 1
+                     and x.targets[0] is stores[0]]
+                if a:
+                    expr = a[0].value
+                    continue
+            return expr, frame
+        if isinstance(expr, _ast.Call):
+            e2, f2 = value_of(g, expr, frame)
+            if e2 is expr:
+                return expr, frame
+            expr, frame = e2, f2
+            continue
+        return expr, frame
+    return expr, frame
+
+
+def reaching_defs(g, node, path):
+    """stmt nodes that assign the local `path` and reach `node` with no
+    other assignment to it in between (plus None when the function entry
+    reaches it unassigned)"""
+    import ast as _ast
+    from ..facts import path_of
+
+    def assigns(n):
+        if n.kind != 'stmt':
+            return False
+        a = n.ast
+        tg = a.targets if isinstance(a, _ast.Assign) else (
+            [a.target] if isinstance(a, (_ast.AugAssign, _ast.AnnAssign))
+            else [])
+        for t in tg:
+            for el in (t.elts if isinstance(t, (_ast.Tuple, _ast.List))
+                       else [t]):
+                if path_of(el, n.frame) == path:
+                    return True
+        return False
+    out, seen, work = [], {node.id}, [node]
+    while work:
+        cur = work.pop()
+        for label, pr in cur.pred:
+            if isinstance(label, tuple) and assigns(pr):
+                continue       # the assignment did not complete
+            if pr.id in seen:
+                continue
+            seen.add(pr.id)
+            if assigns(pr):
+                out.append(pr)
+                continue
+            if pr is g.entry:
+                out.append(None)
+            work.append(pr)
+    return out
+
+
+class _MergedClass:
+    pass
+
+
+def merged_class(e, cls_qname):
+    """the class with the methods it inherits from base classes defined in
+    the repository folded in (a mixin extracted from the class is still the
+    class): .methods maps each name to the definition the MRO selects"""
+    c = e.p.cls(cls_qname)
+    methods = {}
+    for q in reversed(e.p.mro(cls_qname)):
+        k = e.p.classes.get(q)
+        if k is not None:
+            methods.update(k.methods)
+    m = _MergedClass()
+    m.__dict__.update(c.__dict__)
+    m.methods = methods
+    return m
